@@ -649,10 +649,10 @@ func TestC19Laws(t *testing.T) {
 		case "mergemap":
 			c.X = genMapDesc(rt, 0, "X")
 			c.Y = genMapDesc(rt, 0, "Y")
-			if c.X.M == "map[int]string" || c.X.M == "map[iface]" || c.X.M == "map[int64]string" || c.X.M == "map[uint64]string" || c.X.M == "map[mixed]" || c.X.M == "map[mixed2]" || c.X.M == "map[structkey]" || c.X.M == "map[arraykey]" {
+			if c.X.M == "map[int]string" || c.X.M == "map[iface]" || c.X.M == "map[int64]string" || c.X.M == "map[uint64]string" || c.X.M == "map[mixed]" || c.X.M == "map[mixed2]" || c.X.M == "map[structkey]" || c.X.M == "map[arraykey]" || c.X.M == "map[widths]" {
 				c.X.M = ""
 			}
-			if c.Y.M == "map[int]string" || c.Y.M == "map[iface]" || c.Y.M == "map[int64]string" || c.Y.M == "map[uint64]string" || c.Y.M == "map[mixed]" || c.Y.M == "map[mixed2]" || c.Y.M == "map[structkey]" || c.Y.M == "map[arraykey]" {
+			if c.Y.M == "map[int]string" || c.Y.M == "map[iface]" || c.Y.M == "map[int64]string" || c.Y.M == "map[uint64]string" || c.Y.M == "map[mixed]" || c.Y.M == "map[mixed2]" || c.Y.M == "map[structkey]" || c.Y.M == "map[arraykey]" || c.Y.M == "map[widths]" {
 				c.Y.M = ""
 			}
 		case "slice":
